@@ -9,6 +9,9 @@ assignment the external solver selected inside the real call is captured and `ro
 reproduce the code's rows from it.
 [T]: an independent Python re-implementation of the statement's clauses on the returned rows, the exhaustive
 optimum for M+N <= 8, distance with/without `matching=True`, hash seeds in fresh interpreters.
+Left free by the statement, hence correspondence-only (reported at most twice per run, the search goes on): the
+Python type of the plain distance, the last bit of the Wasserstein sum, kept (-1,-1,0) rows.  A raise in a fresh
+interpreter under some hash seed is bisected to the call(s) that raise; the record holds them and `replay` re-runs them.
 """
 import itertools, json, math, os, subprocess, sys, types, warnings
 from fractions import Fraction
@@ -18,8 +21,9 @@ from ..common import enc, ask
 
 LEVEL = "proof"
 RULE = ("pairs of finite diagrams from one PRNG: sizes 0,1,2,.. (0-8 quick, up to 40 thorough), coordinates from "
-        "lattice/half/dyadic (float arithmetic exact) and decimal/uniform modes, pair scales 2^-20,1,2^20 and the "
-        "non-dyadic 0.1, 1/3; duplicates inside a diagram, points shared between the two diagrams, diagonal points, "
+        "lattice/half/dyadic (float arithmetic exact) and decimal/uniform modes, pair scales 2^-20,1,2^20, 10, 100 and the "
+        "non-dyadic 0.1, 1/3; two modes well above unit scale (integer grey levels 0..255, exact; one-decimal values in 0..255; short "
+        "bars next to long ones); duplicates inside a diagram, points shared between the two diagrams, diagonal points, "
         "empty sides; each pair handed over in one representation that holds its numbers unchanged (float64 array, list, tuple; float32, "
         "int64/int32/int16/int8/uint8 arrays, Python-int lists where the coordinates allow); both functions with and without matching=True; non-trivial = both sides non-empty and at "
         "least 3 points in total; distinct by digest of (fn, diagrams)")
@@ -34,10 +38,15 @@ ASSUMPTIONS = [
     "integer arrays (int64..uint8 where the coordinates allow), lists, tuples and Python-int lists; checker and models are dtype-free",
     "that the reported distance is the specification value (minimum over all partial matchings) is C01/C02; here it is "
     "re-confirmed exhaustively for M+N <= 8 only",
+    "'the distance returned is the same as without it': the same NUMBER (float() of whatever is returned — the Python type is not "
+    "part of the statement); bit-equal for bottleneck (one matrix entry on both paths), within 1e-9*scale*(M+N+1) for Wasserstein "
+    "(a sum, whose order the statement does not fix); a last-bit difference is reported as a correspondence break only",
+    "the statement constrains the rows of POINTS: a kept diagonal-diagonal row (-1,-1,0) is not a failing input (it is left out of "
+    "what the checker sees and reported as a correspondence break); a (-1,-1) row with a non-zero third entry is",
 ]
 TRUSTED = ["C01/C02 for `reported distance = minimum over all partial matchings` (here only re-confirmed exhaustively for M+N <= 8)",
            "the external solvers are NOT trusted by this check: whatever matching they select, the rows built from it are validated per call"]
-EXACT_MODES = ("lattice", "half", "dyadic")
+EXACT_MODES = ("lattice", "half", "dyadic", "grey")
 FILES = ["persim/bottleneck.py", "persim/wasserstein.py"]
 # the theorems that carry clauses of the property statement.  NOT among them: the two `matching_flag_irrelevant_*`
 # theorems (true by `rfl`: they restate how the model's return value is built — the clause "same distance with and
@@ -60,6 +69,21 @@ PROP_FILES += ["PersimVerif/Props/C06Model.lean"]
 
 # ----------------------------------------------------------------------------- generators
 
+def gen_bar(ctx, mode, allow_diag):
+    """ctx.gen.bar plus two modes well above unit scale: 'grey' = integer grey levels 0..255 (float arithmetic exact),
+    'dec255' = one-decimal values in 0..255"""
+    r = ctx.rng
+    if mode not in ("grey", "dec255"):
+        return ctx.gen.bar(mode, allow_diag=allow_diag)
+    pick = (lambda: float(r.randint(0, 255))) if mode == "grey" else (lambda: round(r.uniform(0, 255), 1))
+    b, d = sorted((pick(), pick()))
+    if r.random() < 0.5:                       # short bars next to long ones, as in real diagrams
+        d = min(255.0, b + (float(r.randint(0, 12)) if mode == "grey" else round(r.uniform(0, 12), 1)))
+    if d == b and not allow_diag:
+        d = b + 1.0
+    return [b, d]
+
+
 def gen_dgm(ctx, nmax, mode, other=None):
     r = ctx.rng
     n = r.choice([0, 1, 2, 3, r.randint(1, nmax), r.randint(1, nmax), r.randint(1, nmax), nmax]) if nmax > 2 else r.randint(0, nmax)
@@ -71,13 +95,13 @@ def gen_dgm(ctx, nmax, mode, other=None):
         elif other and u < 0.35:
             pts.append(list(r.choice(other)))            # shared with the other diagram: zero-cost pairs, ties
         else:
-            pts.append(ctx.gen.bar(mode, allow_diag=(r.random() < 0.2)))
+            pts.append(gen_bar(ctx, mode, r.random() < 0.2))
     return pts
 
 
 def gen_pair(ctx, nmax):
     r = ctx.rng
-    mode = r.choice(["lattice", "lattice", "half", "dyadic", "dec", "unif"])
+    mode = r.choice(["lattice", "lattice", "half", "dyadic", "dec", "unif", "grey", "dec255"])
     A_ = gen_dgm(ctx, nmax, mode)
     B_ = gen_dgm(ctx, nmax, mode, other=A_)
     u = r.random()
@@ -91,12 +115,15 @@ def gen_pair(ctx, nmax):
     elif u < 0.12 and len(A_) >= 2:
         B_ = [list(p) for p in A_]
         r.shuffle(B_)
-        B_[r.randrange(len(B_))] = ctx.gen.bar(mode, allow_diag=False)   # a reordered copy with one point replaced
+        B_[r.randrange(len(B_))] = gen_bar(ctx, mode, False)   # a reordered copy with one point replaced
         ctx.count("pairs:reordered_copy_one_replaced")
     if r.random() < 0.5:
         A_, B_ = B_, A_
-    lam = r.choice([1.0, 1.0, 1.0, 2.0 ** -20, 2.0 ** 20, 0.1, 1.0 / 3.0])
-    exact = mode in EXACT_MODES and lam in (1.0, 2.0 ** -20, 2.0 ** 20)
+    lam = r.choice([1.0, 1.0, 1.0, 2.0 ** -20, 2.0 ** 20, 0.1, 1.0 / 3.0, 10.0, 100.0])
+    if mode in ("grey", "dec255"):
+        lam = 1.0                              # already well above unit scale
+    # (10 and 100 times a lattice/half/dyadic coordinate is exactly representable: few mantissa bits)
+    exact = mode in EXACT_MODES and lam in (1.0, 2.0 ** -20, 2.0 ** 20, 10.0, 100.0)
     if lam != 1.0:
         A_ = [[p[0] * lam, p[1] * lam] for p in A_]
         B_ = [[p[0] * lam, p[1] * lam] for p in B_]
@@ -283,7 +310,11 @@ def py_clauses(fn, A_, B_, dist, rows, exact, ctol, atol):
         if not (-1 <= i < M and -1 <= j < N):
             bad.append("row (%d,%d) has an index out of range" % (i, j)); continue
         if i == -1 and j == -1:
-            bad.append("a diagonal-diagonal row (-1,-1) is present"); continue
+            # the statement constrains the rows of POINTS; a kept diagonal-diagonal row pairs no point.  Its cost under
+            # either rule is 0: only a non-zero third entry contradicts "third entry = cost of that pairing"
+            if abs(c) > ctol:
+                bad.append("a diagonal-diagonal row (-1,-1) has the non-zero third entry %r" % (c,))
+            continue
         want = pc(S[i], T[j]) if (i >= 0 and j >= 0) else (dc(S[i]) if j == -1 else dc(T[j]))
         if exact and fn == "bn":
             if Fraction(c) != want:
@@ -299,8 +330,7 @@ def py_clauses(fn, A_, B_, dist, rows, exact, ctol, atol):
             agg = math.fsum(r[2] for r in rows)
             if abs(agg - dist) > atol:
                 bad.append("sum of row costs %r != reported distance %r" % (agg, dist))
-    else:
-        bad.append("no rows")
+    # (no rows at all: the clauses above already say which points are in no row — an empty side is the point (0,0), index 0)
     return bad
 
 
@@ -345,6 +375,8 @@ class Case:
         self.res = None
         self.problems = []       # statement failures found on the real code (each is a failing input)
         self.wire = None
+        self.checked_wire = None # the rows handed to the checkers: `wire` without harmless (-1,-1,0) rows
+        self.notes = []          # differences from the model that the statement leaves free (correspondence only)
         self.lines = []          # driver lines: [cert, (cert.f), (rows model)]
         self.kinds = []
 
@@ -368,9 +400,21 @@ class Case:
             self.problems.append("distance is not a number: %r" % (dist,)); return
         res["dist"] = dist
         if plain is not None:
-            same = isinstance(plain, (float, np.floating)) and float(plain) == dist
-            if not same:
-                self.problems.append("distance with matching=True is %r, without %r" % (dist, plain))
+            # "the distance returned is the same as without it": the same NUMBER — its Python type (float, np.float64,
+            # int 0, 0-d array) is not fixed by the statement; bottleneck returns one of the matrix entries on both paths
+            # (bit-equal), Wasserstein may sum the selected costs in another order (equal up to rounding)
+            try:
+                pf = float(plain)
+            except (TypeError, ValueError):
+                pf = None
+            if pf is None:
+                self.problems.append("distance without matching=True is not a number: %r" % (plain,))
+            elif pf != dist:
+                tol = 0.0 if self.fn == "bn" else 1e-9 * self.scale * (max(len(self.A), 1) + max(len(self.B), 1) + 1)
+                if not abs(pf - dist) <= tol:
+                    self.problems.append("distance with matching=True is %r, without %r" % (dist, plain))
+                else:
+                    self.notes.append("distance with matching=True is %r, without %r (equal up to rounding, not bit-identical)" % (dist, plain))
         if not math.isfinite(dist):
             self.problems.append("distance %r is not finite" % dist); return
         bad, wire = rows_wire(res["rows"])
@@ -378,6 +422,16 @@ class Case:
         self.wire = wire
         if wire is None:
             return
+        # kept diagonal-diagonal rows with cost 0 change neither the maximum, nor the sum, nor "every point exactly once":
+        # they are left out of what the checker sees and reported as a correspondence break only
+        ctol = 1e-9 * self.scale
+        dd = [r_ for r_ in wire if r_[0] == -1 and r_[1] == -1]
+        if dd and all(abs(r_[2]) <= ctol for r_ in dd):
+            self.notes.append("%d diagonal-diagonal row(s) (-1,-1,0) are kept in the returned rows" % len(dd))
+            self.checked_wire = [r_ for r_ in wire if not (r_[0] == -1 and r_[1] == -1)]
+        else:
+            self.checked_wire = wire
+        wire = self.checked_wire
         if self.fn == "bn":
             self.lines.append("cert.rows.bn %s %s %s %s" % (enc(self.A), enc(self.B), enc(wire), enc(dist))); self.kinds.append("cert")
             if not self.exact:
@@ -459,13 +513,18 @@ class Case:
             ctx.violation("%s(matching=True): %s" % ("bottleneck" if fn == "bn" else "wasserstein", "; ".join(self.problems[:6])),
                           dict(self.desc(), distance=dist, rows=self.wire, plain=self.res.get("plain") if self.res else None),
                           found_input=True)
-        elif corr:
-            # the small model of the extraction loop disagrees with the code although the property holds on this input
-            ctx.violation("extraction model differs from the code (the returned rows still certify the distance): " + corr,
-                          {"correspondence": "rows." + fn, "line": self.lines[-1][:2000], "code": self.wire,
-                           "model": "see `what`", "fn": fn, "A": self.A, "B": self.B, "exact": self.exact},
-                          found_input=False)
-        return not self.problems and not corr
+        elif corr or self.notes:
+            # the small model of the extraction loop disagrees with the code although the property holds on this input, or
+            # the code differs in something the statement leaves free (kept (-1,-1,0) rows, last-bit difference of the two
+            # Wasserstein distances): reported twice per run at most, the search for a failing input goes on
+            ctx.count("correspondence_break_property_holds")
+            if ctx.counters["correspondence_break_property_holds"] <= 2:
+                ctx.violation("extraction model differs from the code (the returned rows still certify the distance): "
+                              + "; ".join(([corr] if corr else []) + self.notes),
+                              {"correspondence": "rows." + fn, "line": self.lines[-1][:2000] if self.lines else "", "code": self.wire,
+                               "model": "see `what`", "fn": fn, "A": self.A, "B": self.B, "exact": self.exact},
+                              found_input=False)
+        return not self.problems and not corr and not self.notes
 
     def compare_model(self, ans, ctol, atol):
         fn = self.fn
@@ -517,6 +576,22 @@ def hashseed_run(jobs, seed):
     return json.loads(p.stdout.decode()), None
 
 
+def isolate_raising(jobs, seed):
+    """the shortest list of jobs found by bisection that still makes the fresh interpreter raise under this hash seed
+    (a single job unless the failure needs earlier calls in the same process)"""
+    jobs = list(jobs)
+    while len(jobs) > 1:
+        half = len(jobs) // 2
+        for part in (jobs[:half], jobs[half:]):
+            vals, _ = hashseed_run(part, seed)
+            if vals is None:
+                jobs = part
+                break
+        else:
+            break                       # neither half raises alone: the failure depends on the sequence of calls
+    return jobs
+
+
 def hash_seeds(ctx, pairs):
     r = ctx.rng
     seeds = sorted(set([0] + [r.randint(1, 2 ** 32 - 1) for _ in range(ctx.n(2, 11))]))
@@ -528,8 +603,12 @@ def hash_seeds(ctx, pairs):
     for s in seeds:
         vals, errtxt = hashseed_run(jobs, s)
         if vals is None:
-            ctx.violation("real code raised in a fresh interpreter under PYTHONHASHSEED=%d: %s" % (s, errtxt),
-                          {"jobs": len(jobs), "hashseed": s, "pairs": [[a, b] for a, b, _ in pairs][:20]}, found_input=True)
+            bad = isolate_raising(jobs, s)
+            case = {"law": "raises_under_hashseed", "hashseed": s, "jobs": bad}
+            if len(bad) == 1:
+                case.update({"fn": bad[0][0][:2], "A": bad[0][1], "B": bad[0][2], "exact": False})
+            ctx.violation("real code raised in a fresh interpreter under PYTHONHASHSEED=%d (%d call(s) isolated, the first: %s(%r, %r)): %s"
+                          % (s, len(bad), bad[0][0], bad[0][1], bad[0][2], errtxt), case, found_input=True)
             return
         cases = []
         for (A_, B_, exact), k in zip(pairs, range(0, len(jobs), 4)):
@@ -626,6 +705,14 @@ def run(ctx):
 
 def replay(ctx, rep):
     c = rep["case"]
+    if c.get("law") == "raises_under_hashseed" and c.get("jobs"):
+        vals, errtxt = hashseed_run(c["jobs"], c["hashseed"])
+        if vals is None:
+            print("raised under PYTHONHASHSEED=%s: %s" % (c["hashseed"], errtxt))
+            return False
+        print("the %d recorded call(s) return under PYTHONHASHSEED=%s" % (len(c["jobs"]), c["hashseed"]))
+        if "A" not in c:
+            return True
     if "A" not in c:
         print("nothing to re-run on the real code in this replay:", json.dumps(c)[:1500])
         return True
@@ -690,7 +777,8 @@ MANIFEST = {
             "'same distance with and without the flag': the two theorems matching_flag_irrelevant_bn/_ws are DEFINITIONAL (true by rfl: the "
             "model's return value is built from the same distance component in both branches) and carry no weight of their own — the clause "
             "rests on C01's matching_flag_value (bottleneckWithMatching returns bottleneck's result) for the bottleneck model and is otherwise "
-            "[T] on the real code (every case is run with and without matching=True and the two distances must be bit-identical); (4) an empty "
+            "[T] on the real code (every case is run with and without matching=True and the two distances must be the same number: bit-equal for "
+            "bottleneck, equal up to rounding for the Wasserstein sum); (4) an empty "
             "side is index 0 of the one-point diagram (0,0). That the returned distance is the specification value (minimum over all partial "
             "matchings) is C01/C02; C06Model composes with them for the models. The rows returned "
             "by the real code are never compared with a model's rows (any optimal matching is acceptable): every returned matching, "
